@@ -175,7 +175,7 @@ class HTTPChannel(wasyncore.dispatcher):
             # Client disconnected.
             self.connected = False
 
-    def send_continue(self):
+    def send_continue(self, do_close=True):
         """
         Send a 100-Continue header to the client. This is either called from
         receive (if no requests are running and the client expects it) or at
@@ -190,7 +190,7 @@ class HTTPChannel(wasyncore.dispatcher):
             self.current_outbuf_count += num_bytes
             self.total_outbufs_len += num_bytes
             self.sent_continue = True
-            self._flush_some()
+            self._flush_some(do_close=do_close)
 
     def received(self, data):
         """
@@ -516,8 +516,10 @@ class HTTPChannel(wasyncore.dispatcher):
                 ):
                     # A request waits for a signal to continue, but we could
                     # not send it until now because requests were being
-                    # processed and the output needs to be kept in order
-                    self.send_continue()
+                    # processed and the output needs to be kept in order.
+                    # This is a service thread: leave closing the socket on
+                    # a failed send to the main thread (do_close=False)
+                    self.send_continue(do_close=False)
 
         if self.connected:
             self.server.pull_trigger()
